@@ -215,7 +215,7 @@ def family(name):
 
 
 def generate(outdir, tier, only=None, per_unit=160):
-    import lpcfam_expr, lpcfam_stmt, lpcfam_misc, lpcfam_more      # noqa: F401  (register families)
+    import lpcfam_expr, lpcfam_stmt, lpcfam_misc, lpcfam_more, lpcfam_nest      # noqa: F401  (register families)
     # corpus sizes: small (self-test), full (quick tier), deep (thorough tier)
     tier = {'quick': 'full', 'thorough': 'deep'}.get(tier, tier)
     w = Writer(outdir, per_unit)
